@@ -259,7 +259,7 @@ def run_task(t):
         elif kind == 'indep':
             stage = 'build'
             dat, order, b = build_from(t)
-            exp = canon(dat)
+            exp = canon(dat, t['mesh'] == 'BIN')
             sk, rfname = STYLES[t['style']]
             rf = L.fortran_read_function if rfname else L.default_read_function
             stage = 'render'
@@ -268,11 +268,15 @@ def run_task(t):
             d0 = os.path.join(d, 'f'); os.makedirs(d0)
             fn, m = paths(d0, t['mesh'])
             with open(fn, 'w') as fh: fh.write(main)
-            if meshtxt is not None:
+            if t['mesh'] == 'MESH':
                 with open(m, 'w') as fh: fh.write(meshtxt)
+            elif t['mesh'] == 'BIN':
+                ba, bb = FW.render_binary(dat, t.get('rock_indices', True))
+                with open(m[0], 'wb') as fh: fh.write(ba)
+                with open(m[1], 'wb') as fh: fh.write(bb)
             stage = 'read-independent'
             o1 = do_read(d0, t['mesh'], rf)
-            c0 = canon(o1)
+            c0 = canon(o1, t['mesh'] == 'BIN')
             res.count('indep-read')
             res.distinct.add((tuple(order), t['style'], t['mesh'], t['bseed']))
             ok, diffs = contract_model(exp, c0, (), False, exact=True)
@@ -414,7 +418,7 @@ def tasks_for(seed):
                     xps += [('on', XP_SECTIONS), ('echo', XP_SECTIONS), ('on', ['ROCKS', 'ELEME']), ('on', ['ROCKS', 'ELEME', 'CONNE']),
                             ('echo', ['ROCKS', 'ELEME', 'CONNE'])]
             for xp in xps:
-                for k in range(6 if THOROUGH else 2):
+                for k in range(12 if THOROUGH else 2):
                     obj('all23#%d' % k, fl, ALL, mesh, xp, bseed=seed * 104729 + k, explicit=bool(k % 2))
     # 3. None in every optional field, one at a time (paths collected from a dry build)
     for fl in FL:
@@ -484,7 +488,7 @@ def tasks_for(seed):
                 order = [s for s in SECTIONS if s in secs and s != last] + [last]
                 obj('probe:last=%s,end=%s' % (last, kwd), fl, secs, 'infile', bseed=seed + 15, order=order, sizes={'end_keyword': kwd})
     # 6. random legal subsets and orders
-    nrand = 8000 if THOROUGH else 400
+    nrand = 20000 if THOROUGH else 1000
     for i in range(nrand):
         fl = rnd.choice(FL)
         secs = set(s for s in SECTIONS if rnd.random() < 0.5)
@@ -512,20 +516,20 @@ def tasks_for(seed):
         obj('rand#%d' % i, fl, secs, mesh, xp, bseed=seed * 2750159 + i, order=order, explicit=explicit)
     # 7. records emitted by an independent Fortran-style writer
     styles = list(STYLES)
-    nind = 600 if THOROUGH else 40
+    nind = 3000 if THOROUGH else 150
     for i in range(nind):
         fl = FL[i % 2]
         st = styles[(i // 2) % len(styles)]
-        mesh = 'MESH' if i % 5 == 4 else 'infile'
+        mesh = 'MESH' if i % 5 == 4 else ('BIN' if i % 5 == 3 else 'infile')
         if i < 4 * len(styles):
             secs = closure(ALL)
         else:
-            secs = closure(set(s for s in SECTIONS if rnd.random() < 0.5) | ({'ROCKS'} if mesh == 'MESH' else set()))
+            secs = closure(set(s for s in SECTIONS if rnd.random() < 0.5) | ({'ROCKS'} if mesh != 'infile' else set()))
         if mesh != 'infile': secs.discard('SHORT')
         if fl == 'AUTOUGH2': secs.add('SIMUL')
         else: secs.discard('SIMUL')
         order = [s for s in SECTIONS if s in secs] if i % 3 else random_order(rnd, secs)
-        add('indep', 'indep#%d|%s|%s|%s' % (i, fl[0], mesh, st), flavour=fl, sections=order, mesh=mesh, style=st, bseed=seed * 32452843 + i, short=True,
+        add('indep', 'indep#%d|%s|%s|%s' % (i, fl[0], mesh, st), flavour=fl, sections=order, mesh=mesh, style=st, bseed=seed * 32452843 + i, short=True, rock_indices=bool(i % 2 == 0 or i % 3),
             sizes={'main_excluded': ['ELEME', 'CONNE'] if mesh != 'infile' else [], 'param_not_last': bool(STYLES[st][1])})
     for fl in FL:
         for st in ('D-pad80', 'E-trim'):
@@ -576,6 +580,7 @@ def main():
             results = list(pool.imap_unordered(run_task, T, chunksize=1 if len(T) < 2000 else 4))
         results.sort(key=lambda r: r['index'])
         nfail = 0
+        held = []
         for r in results:
             for k, v in r['evals'].items(): evals[k] = evals.get(k, 0) + v
             distinct.update(r['distinct'])
@@ -584,7 +589,10 @@ def main():
                 nfail += 1
                 cls = f.pop('cls')
                 classes[cls] = classes.get(cls, 0) + 1
-                if classes[cls] <= int(os.environ.get('C01_MAXPER', 2)) and len(failures) < int(os.environ.get('C01_MAXF', 60)): failures.append(f)
+                if classes[cls] == 1: failures.append(f)
+                elif classes[cls] <= int(os.environ.get('C01_MAXPER', 3)): held.append(f)
+        cap = int(os.environ.get('C01_MAXF', 60))
+        failures = (failures + held)[:cap]
         out = {'evaluations': sum(evals.values()), 'distinct': len(distinct), 'failures': failures, 'nfailures': nfail,
                'samples': samples + [{'evaluations_per_contract': evals, 'tasks': len(T)}],
                'classes': dict(sorted(classes.items())), 'seconds': time.time() - t0}
